@@ -390,6 +390,31 @@ fn algebra_sweep() {
         if c(&pos) != c(&neg) { f.report("C18", "a negative singular-value threshold does not act like its absolute value", format!("{:?} vs {:?}", c(&pos), c(&neg))); }
         if c(&pos) == c(&dflt) { f.report("C01", "a supplied singular-value threshold has no effect (same coefficients as with the default)", String::new()); }
     }
+    // C07 with a supplied threshold: column s of a 3-column problem equals the single-column problem for every threshold on a
+    // geometric grid around the small singular value of the basis matrix (the truncation must not depend on the number of columns)
+    {
+        let n = 12usize;
+        let x = DVector::from_fn(n, |i, _| 10. * i as f64 / (n - 1) as f64);
+        let tiny = || SeparableModelBuilder::<f64>::new(&["tau"]).initial_parameters(vec![2.0]).independent_variable(x.clone())
+            .function(&["tau"], |x: &DVector<f64>, tau: f64| x.map(|x| (-x / tau).exp())).partial_deriv("tau", |x: &DVector<f64>, tau: f64| x.map(|x| (-x / tau).exp() * x / (tau * tau)))
+            .invariant_function(|x: &DVector<f64>| 1e-6 * x).build().unwrap();
+        let sv = tiny().eval().unwrap().svd(false, false).singular_values;
+        let s_small = sv.min();
+        let y = DMatrix::from_fn(n, 3, |i, j| (3. - j as f64) * (-x[i] / 2.).exp() + 0.3 * (j as f64 + 1.) + 0.01 * (1.7 * x[i] + j as f64).sin());
+        'grid: for k in -24i32..=24 {
+            let eps = s_small * 1.4f64.powi(k);
+            let multi = LevMarProblemBuilder::mrhs(tiny()).observations(y.clone()).epsilon(eps).build().unwrap();
+            let cm = match multi.linear_coefficients() { Some(c) => c.into_owned(), None => continue };
+            for s in 0..3 {
+                let single = LevMarProblemBuilder::new(tiny()).observations(y.column(s).into_owned()).epsilon(eps).build().unwrap();
+                let cs = match single.linear_coefficients() { Some(c) => c.into_owned(), None => continue };
+                if let Some(d) = close(&colm(cm.column(s).as_slice()), &colm(cs.as_slice())) {
+                    f.report("C07", "column s of a multiple right-hand-side problem differs from the single right-hand-side problem for that column", format!("(max abs diff {:e}) column {} of 3, threshold {:e} = {:.3} x the smallest singular value of the basis matrix", d, s, eps, 1.4f64.powi(k)));
+                    break 'grid;
+                }
+            }
+        }
+    }
     fit_cases(&mut f);
     fault_cases(&mut f);
     builder_cases(&mut f);
